@@ -185,6 +185,25 @@ pub fn dated_interval(
     Some((s, e))
 }
 
+/// Day number (days from 0001-01-01, proleptic Gregorian) of a dated end of a range, with its offset applied in
+/// unbounded integer arithmetic: `2000 Jan 1 -200000000000 days` is a day number far below anything a date type
+/// can hold, and the range it starts still contains every day up to its end. `None`: the combination of a
+/// weekday offset with a day offset (U4), or a date that does not resolve.
+fn dated_end_number(side: &(ds::Date, ds::DateOffset), clamp: Clamp) -> Option<i128> {
+    let y = date_year(&side.0)?;
+    let base = resolve(&side.0, y, clamp)?;
+    match side.1.wday_offset {
+        ds::WeekDayOffset::None => Some(i128::from(base.num_days_from_ce()) + i128::from(side.1.day_offset)),
+        _ if side.1.day_offset == 0 => apply_offset(base, &side.1).map(|x| i128::from(x.num_days_from_ce())),
+        _ => None,
+    }
+}
+
+/// The single interval of a range whose two ends carry a year, as day numbers.
+pub fn doubly_dated_interval(start: &(ds::Date, ds::DateOffset), end: &(ds::Date, ds::DateOffset)) -> Option<(i128, i128)> {
+    Some((dated_end_number(start, Clamp::After)?, dated_end_number(end, Clamp::Before)?))
+}
+
 fn monthday_match(r: &ds::MonthdayRange, d: NaiveDate) -> bool {
     let y = d.year();
     match r {
@@ -206,6 +225,10 @@ fn monthday_match(r: &ds::MonthdayRange, d: NaiveDate) -> bool {
                 return (y - 1..=y + 1).any(|yy| {
                     resolve(&start.0, yy, Clamp::Exact).and_then(|x| apply_offset(x, &start.1)) == Some(d)
                 });
+            }
+            if date_year(&start.0).is_some() && date_year(&end.0).is_some() {
+                let n = i128::from(d.num_days_from_ce());
+                return doubly_dated_interval(start, end).is_some_and(|(s, e)| s <= n && n <= e);
             }
             if date_year(&start.0).is_some() {
                 return dated_interval(start, end).is_some_and(|(s, e)| s <= d && d <= e);
@@ -498,8 +521,16 @@ pub fn undecided(e: &rl::OpeningHoursExpression) -> Option<&'static str> {
                         }
                         // a single date is resolved exactly on the years around the probed one, so
                         // offsets below a year are decided; a range needs well separated ends
-                        let limit = if start == end && side.1.wday_offset == ds::WeekDayOffset::None { 300 } else { 40 };
-                        if side.1.day_offset.abs() > limit {
+                        // ... and a range whose two ends carry a year is one interval whatever the offsets
+                        let doubly_dated = start != end && date_year(&start.0).is_some() && date_year(&end.0).is_some();
+                        let limit = if doubly_dated {
+                            i64::MAX
+                        } else if start == end && side.1.wday_offset == ds::WeekDayOffset::None {
+                            300
+                        } else {
+                            40
+                        };
+                        if side.1.day_offset.unsigned_abs() > limit as u64 {
                             return Some("U7:large-day-offset");
                         }
                         if date_year(&side.0).is_some_and(|y| y > 9999) {
@@ -532,6 +563,11 @@ pub fn undecided(e: &rl::OpeningHoursExpression) -> Option<&'static str> {
                     }
                     match (date_year(&start.0), date_year(&end.0)) {
                         (None, Some(_)) => return Some("U6:yearless-start-dated-end"),
+                        (Some(_), Some(_)) => match doubly_dated_interval(start, end) {
+                            None => return Some("U6:dated-end-precedes-start"),
+                            Some((s, e)) if e < s => return Some("U6:dated-end-precedes-start"),
+                            Some(_) => {}
+                        },
                         (Some(_), _) => match dated_interval(start, end) {
                             None => return Some("U6:dated-end-precedes-start"),
                             Some((s, e)) if e < s => return Some("U6:dated-end-precedes-start"),
